@@ -87,15 +87,20 @@ Example renamed_import_pin :
 Proof. repeat split; vm_compute; reflexivity. Qed.
 
 (* Kotlin, the same workspace: without a prefix reference and import agree with the definition; with the prefix KP
-   the reference is KPA2Renamed - what a.kt declares - while the import line (kotlin.rs:301) names the unprefixed
-   A2Renamed *)
+   the reference is KPA2Renamed - what a.kt declares - and since fix 26 of /repo (kotlin.rs:301 write_imports prints
+   the prefix) the import line names KPA2Renamed too (it used to name the unprefixed A2Renamed, which a.kt does not
+   declare): exact text of my_crate.kt *)
 Example renamed_import_kotlin_pin :
   wm_kt_text [] ws_renamed MY =
     Some (lit "package p.my_crate" ++ NL ++ NL ++ lit "import kotlinx.serialization.Serializable" ++ NL ++
           lit "import kotlinx.serialization.SerialName" ++ NL ++ NL ++ lit "import p.a.A2Renamed" ++ NL ++ NL ++
           lit "@Serializable" ++ NL ++ lit "data class B1 (" ++ NL ++ TAB ++ lit "val f: A2Renamed" ++ NL ++ lit ")" ++ NL ++ NL)%list /\
+  wm_kt_text (lit "KP") ws_renamed MY =
+    Some (lit "package p.my_crate" ++ NL ++ NL ++ lit "import kotlinx.serialization.Serializable" ++ NL ++
+          lit "import kotlinx.serialization.SerialName" ++ NL ++ NL ++ lit "import p.a.KPA2Renamed" ++ NL ++ NL ++
+          lit "@Serializable" ++ NL ++ lit "data class KPB1 (" ++ NL ++ TAB ++ lit "val f: KPA2Renamed" ++ NL ++ lit ")" ++ NL ++ NL)%list /\
   match wm_kt_text (lit "KP") ws_renamed MY with
-  | Some t => contains_sub (lit "val f: KPA2Renamed") t && contains_sub (lit "import p.a.A2Renamed") t
+  | Some t => negb (contains_sub (lit "import p.a.A2Renamed") t)
   | None => false
   end = true /\
   match wm_kt_text (lit "KP") ws_renamed (lit "a") with Some t => contains_sub (lit "data class KPA2Renamed (") t | None => false end = true.
